@@ -102,6 +102,16 @@ def peekErrorIdx (rest : Bytes) (pos : Nat) : Nat := if rest.isEmpty then pos el
 def atEof {α : Type} (env : Env) (c : Code) (pos : Nat) : Res α :=
   if env.flt then .io else .err c pos
 
+/-- `parse_whitespace()` then a byte must be there (it is only peeked):
+```rust
+let peek = match tri!(self.parse_whitespace()) { Some(b) => b, None => return Err(self.peek_error(ErrorCode::<code>)) };
+```
+`k b r p`: the peeked byte `b`, the input after it, and the index of `b` -/
+def withPeek {α : Type} (env : Env) (c : Code) (rest : Bytes) (pos : Nat) (k : UInt8 → Bytes → Nat → Res α) : Res α :=
+  match skipWs rest pos with
+  | ([], p) => atEof env c p
+  | (b :: r, p) => k b r p
+
 /-- ```rust
 fn fix_position(&self, err: Error) -> Error { err.fix_position(move |code| self.error(code)) }
 // error.rs: if self.err.line == 0 { f(self.err.code) } else { self }
@@ -255,9 +265,7 @@ fn deserialize_bool<V>(self, visitor: V) -> Result<V::Value> {
     match value { Ok(value) => Ok(value), Err(err) => Err(self.fix_position(err)) } }
 ``` -/
 def deBool (env : Env) (rest : Bytes) (pos : Nat) : TOut :=
-  match skipWs rest pos with
-  | ([], p) => atEof env .EofWhileParsingValue p
-  | (b :: r, p) =>
+  withPeek env .EofWhileParsingValue rest pos fun b r p =>
     if b == 0x74 then (parseIdent env Gen.identTrue r (p + 1)).bind fun _ r' p' => .ok (.bool true) r' p'
     else if b == 0x66 then (parseIdent env Gen.identFalse r (p + 1)).bind fun _ r' p' => .ok (.bool false) r' p'
     else peekInvalidType env (b :: r) p
@@ -273,9 +281,7 @@ fn deserialize_unit<V>(self, visitor: V) -> Result<V::Value> {
 fn deserialize_unit_struct(self, _name, visitor) { self.deserialize_unit(visitor) }
 ``` -/
 def deUnit (env : Env) (rest : Bytes) (pos : Nat) : TOut :=
-  match skipWs rest pos with
-  | ([], p) => atEof env .EofWhileParsingValue p
-  | (b :: r, p) =>
+  withPeek env .EofWhileParsingValue rest pos fun b r p =>
     if b == 0x6e then (parseIdent env Gen.identNull r (p + 1)).bind fun _ r' p' => .ok .unit r' p'
     else peekInvalidType env (b :: r) p
 
@@ -479,9 +485,7 @@ pub(crate) fn deserialize_number<'any, V>(&mut self, visitor: V) -> Result<V::Va
 (`do_deserialize_f32` under `float_roundtrip` sets `single_precision` around the same call.)
 After `parse_integer` the byte that ended the literal is peeked. -/
 def deNumber (env : Env) (ty : NumTy) (rest : Bytes) (pos : Nat) : TOut :=
-  match skipWs rest pos with
-  | ([], p) => atEof env .EofWhileParsingValue p
-  | (b :: r, p) =>
+  withPeek env .EofWhileParsingValue rest pos fun b r p =>
     if isNumStart b then
       (scanNumber env (b :: r) p).bind fun parts rest' pos' =>
         if env.cfg.fr && ty == .f32 then
@@ -546,9 +550,7 @@ pub(crate) fn do_deserialize_u128<'any, V>(&mut self, visitor: V) -> Result<V::V
 `w` is `.i128` or `.u128`; `buf.parse()` = `FromValue.rustParseInt`; `self.error(NumberOutOfRange)` has the
 byte that ended the digits peeked. -/
 def deInt128 (env : Env) (w : IntTy) (rest : Bytes) (pos : Nat) : TOut :=
-  match skipWs rest pos with
-  | ([], p) => atEof env .EofWhileParsingValue p
-  | (b :: r, p) =>
+  withPeek env .EofWhileParsingValue rest pos fun b r p =>
     let finish (neg : Bool) (sc : Res Bytes) : TOut :=
       sc.bind fun ds rest' pos' =>
         match rustParseInt w (if neg then 0x2d :: ds else ds) with
@@ -585,9 +587,7 @@ fn deserialize_str<V>(self, visitor: V) -> Result<V::Value> {
 fn deserialize_char / deserialize_string / deserialize_identifier: self.deserialize_str(visitor)
 ``` -/
 def deStr (env : Env) (visit : Bytes → R) (rest : Bytes) (pos : Nat) : TOut :=
-  match skipWs rest pos with
-  | ([], p) => atEof env .EofWhileParsingValue p
-  | (b :: r, p) =>
+  withPeek env .EofWhileParsingValue rest pos fun b r p =>
     if b == 0x22 then
       (parseStr env r (p + 1)).bind fun s rest' pos' => fixPos env false (ofVisit (visit s) rest' pos')
     else peekInvalidType env (b :: r) p
@@ -706,15 +706,11 @@ fn has_next_element(seq: &mut SeqAccess<'a, R>) -> Result<bool> {
     else { Err(seq.de.peek_error(ErrorCode::ExpectedListCommaOrEnd)) } }
 ``` -/
 def hasNextElement (env : Env) (first : Bool) (rest : Bytes) (pos : Nat) : Res Bool :=
-  match skipWs rest pos with
-  | ([], p) => atEof env .EofWhileParsingList p
-  | (b :: r, p) =>
+  withPeek env .EofWhileParsingList rest pos fun b r p =>
     if b == 0x5d then .ok false (b :: r) p
     else if first then .ok true (b :: r) p
     else if b == 0x2c then
-      match skipWs r (p + 1) with
-      | ([], q) => atEof env .EofWhileParsingValue q
-      | (c :: r', q) => if c == 0x5d then .err .TrailingComma (q + 1) else .ok true (c :: r') q
+      withPeek env .EofWhileParsingValue r (p + 1) fun c r' q => if c == 0x5d then .err .TrailingComma (q + 1) else .ok true (c :: r') q
     else .err .ExpectedListCommaOrEnd (p + 1)
 
 /-- `next_element_seed(seed)`: `if tri!(has_next_element(self)) { Ok(Some(tri!(seed.deserialize(&mut *self.de)))) } else { Ok(None) }` -/
@@ -797,9 +793,7 @@ fn deserialize_tuple / deserialize_tuple_struct: self.deserialize_seq(visitor)
 ```
 `visit` is the visitor's `visit_seq` on a fresh `SeqAccess` (`first = true`). -/
 def deSeq (env : Env) (t : Nat) (visit : Bytes → Nat → TOut) (rest : Bytes) (pos : Nat) : TOut :=
-  match skipWs rest pos with
-  | ([], p) => atEof env .EofWhileParsingValue p
-  | (b :: r, p) =>
+  withPeek env .EofWhileParsingValue rest pos fun b r p =>
     if b == 0x5b then
       if tooDeep env t then .err .RecursionLimitExceeded (p + 1)
       else closeWith env (endSeq env) (visit r (p + 1))
@@ -819,9 +813,7 @@ fn deserialize_byte_buf: self.deserialize_bytes(visitor)
 ```
 with `serde_bytes::ByteBufVisitor` (`visit_bytes`, and `visit_seq`: `while let Some(b) = seq.next_element::<u8>()?`). -/
 def deBytes (env : Env) (t : Nat) (rest : Bytes) (pos : Nat) : TOut :=
-  match skipWs rest pos with
-  | ([], p) => atEof env .EofWhileParsingValue p
-  | (b :: r, p) =>
+  withPeek env .EofWhileParsingValue rest pos fun b r p =>
     if b == 0x22 then (parseStrRaw env r (p + 1)).map .bytes
     else if b == 0x5b then
       deSeq env t (fun r' p' => (seqLoop env (deNumber env (.int .u8)) (r'.length + 1) true [] r' p').map
@@ -845,15 +837,11 @@ fn has_next_key(map: &mut MapAccess<'a, R>) -> Result<bool> {
 ```
 on `Ok(true)` the unread input starts with the key's opening quote. -/
 def hasNextKey (env : Env) (first : Bool) (rest : Bytes) (pos : Nat) : Res Bool :=
-  match skipWs rest pos with
-  | ([], p) => atEof env .EofWhileParsingObject p
-  | (b :: r, p) =>
+  withPeek env .EofWhileParsingObject rest pos fun b r p =>
     if b == 0x7d then .ok false (b :: r) p
     else if first then (if b == 0x22 then .ok true (b :: r) p else .err .KeyMustBeAString (p + 1))
     else if b == 0x2c then
-      match skipWs r (p + 1) with
-      | ([], q) => atEof env .EofWhileParsingValue q
-      | (c :: r', q) =>
+      withPeek env .EofWhileParsingValue r (p + 1) fun c r' q =>
         if c == 0x22 then .ok true (c :: r') q
         else if c == 0x7d then .err .TrailingComma (q + 1)
         else .err .KeyMustBeAString (q + 1)
@@ -868,9 +856,7 @@ fn parse_object_colon(&mut self) -> Result<()> {
     } }
 ``` -/
 def parseObjectColon (env : Env) (rest : Bytes) (pos : Nat) : Res Unit :=
-  match skipWs rest pos with
-  | ([], p) => atEof env .EofWhileParsingObject p
-  | (b :: r, p) => if b == 0x3a then .ok () r (p + 1) else .err .ExpectedColon (p + 1)
+  withPeek env .EofWhileParsingObject rest pos fun b r p => if b == 0x3a then .ok () r (p + 1) else .err .ExpectedColon (p + 1)
 
 /-- ```rust
 fn end_map(&mut self) -> Result<()> {
@@ -998,9 +984,7 @@ fn deserialize_map<V>(self, visitor: V) -> Result<V::Value> {
     match value { Ok(value) => Ok(value), Err(err) => Err(self.fix_position(err)) } }
 ``` -/
 def deMap (env : Env) (t : Nat) (visit : Bytes → Nat → TOut) (rest : Bytes) (pos : Nat) : TOut :=
-  match skipWs rest pos with
-  | ([], p) => atEof env .EofWhileParsingValue p
-  | (b :: r, p) =>
+  withPeek env .EofWhileParsingValue rest pos fun b r p =>
     if b == 0x7b then
       if tooDeep env t then .err .RecursionLimitExceeded (p + 1)
       else closeWith env (endMap env) (visit r (p + 1))
@@ -1071,9 +1055,7 @@ fn deserialize_struct<V>(self, _name, _fields, visitor: V) -> Result<V::Value> {
 ``` -/
 def deStruct (env : Env) (t : Nat) (de : Nat → Schema → Bytes → Nat → TOut) (fs : List (Bytes × Schema)) (deny : Bool)
     (rest : Bytes) (pos : Nat) : TOut :=
-  match skipWs rest pos with
-  | ([], p) => atEof env .EofWhileParsingValue p
-  | (b :: r, p) =>
+  withPeek env .EofWhileParsingValue rest pos fun b r p =>
     if b == 0x5b then
       if tooDeep env t then .err .RecursionLimitExceeded (p + 1)
       else closeWith env (endSeq env)
@@ -1123,9 +1105,7 @@ fn deserialize_enum<V>(self, _name: &str, _variants, visitor: V) -> Result<V::Va
 (no `fix_position` here). `de d` deserializes a schema with `d` typed containers open. -/
 def deEnum (env : Env) (t : Nat) (de : Nat → Schema → Bytes → Nat → TOut) (vs : List (Bytes × VariantShape))
     (rest : Bytes) (pos : Nat) : TOut :=
-  match skipWs rest pos with
-  | ([], p) => atEof env .EofWhileParsingValue p
-  | (b :: r, p) =>
+  withPeek env .EofWhileParsingValue rest pos fun b r p =>
     if b == 0x7b then
       if tooDeep env t then .err .RecursionLimitExceeded (p + 1)
       else
@@ -1136,9 +1116,7 @@ def deEnum (env : Env) (t : Nat) (de : Nat → Schema → Bytes → Nat → TOut
             | none => .raw r2 p2                                              -- not reached: `i` indexes `vs`
             | some (_, sh) =>
               (dePayload env (t + 1) de sh r2 p2).bind fun payload r3 p3 =>
-                match skipWs r3 p3 with
-                | ([], q) => atEof env .EofWhileParsingObject q
-                | (c :: r4, q) =>
+                withPeek env .EofWhileParsingObject r3 p3 fun c r4 q =>
                   if c == 0x7d then .ok (.variant i payload) r4 (q + 1)
                   else .err .ExpectedSomeValue (errorIdx env (c :: r4) q true)
     else if b == 0x22 then
